@@ -37,11 +37,11 @@ CLAIMED = {
  "C04": dict(
     text="Coq theorems over the output/dispatch/action model with constants (modes, flags, printf formats) regenerated from src/output/*.c and the action/dispatch "
          "skeletons regenerated from clang's AST: C04_one_record (exactly one record, at the configured sink, equal to the documented frame, for every message, output, "
-         "argument, ident, priority, pid), C04_devlog_frame, C04_none_when_dropped/_empty, C04_at_most_one. Tied by a system-level correspondence in which the harness owns "
+         "argument, ident, priority, pid), C04_devlog_frame, C04_none_when_dropped/_empty, C04_at_most_one; with error logging on, C04_error_records (exactly n1+n2 separate whole framed records of the error text - one per refused append while the message resp. the output's own path/ident template was formatted, Expand.Errors - followed by the ONE record of the message), C04_fits_no_error_record, C04_error_logging_off. Tied by a system-level correspondence in which the harness owns "
          "all seven sinks and the recorder drains them at exec entry (also with a simulated successful exec), compared with the extracted models' prediction.",
     ref="DESIGN.md section 7 C04",
     note="Trusted: Coq kernel + vm_compute; tr_output/tr_expand/skel translators; extraction + drivers; harness. Assumes the sink accepts the operations (C03 covers failures); "
-         "stderr unbuffered; kernel datagram size limits outside the model; error-logging-on extra records not modelled (error logging off in the run).",
+         "stderr unbuffered; kernel datagram size limits outside the model.",
     technique="Coq proof over regenerated output constants/skeletons + sink-sampling system-level correspondence"),
  "C17": dict(
     text="Coq theorems C17_one_write (append-mode open without truncation, exactly one write(2) per framed record, from the regenerated open flags / write pattern of "
